@@ -5,11 +5,13 @@
 Require Extraction.
 Require Import ExtrOcamlBasic.
 From Coq Require Import ZArith NArith List.
-From RQ Require Import Base Apply Distributor.
+From RQ Require Import Base Apply ApplySpec Distributor.
 
 Definition dist_N := Distributor.distribute N N.eqb.
 Definition classes_ok_N := Distributor.classes_ok N N.eqb.
 Definition apply_N := Apply.apply N N.eqb.
 Definition rollback_N := Apply.rollback N N.eqb.
+Definition placements_ok_N := ApplySpec.placements_ok N N.eqb.
+Definition rewrite_ok_N := ApplySpec.rewrite_ok N N.eqb.
 
-Extraction "model.ml" dist_N classes_ok_N apply_N rollback_N.
+Extraction "model.ml" dist_N classes_ok_N apply_N rollback_N placements_ok_N rewrite_ok_N.
